@@ -407,6 +407,34 @@ def symmetry(ctx, P, iters):
             ctx.unrecognised("TS: no history.append in %s.timestamp" % c)
 
 
+def _expand(view, fn, node, depth=0):
+    """the expression(s) `node` (an expression of fn) stands for, as texts without blanks: pure temporaries are read through, a local assigned once from a call
+    is that call, and a call of a newly extracted helper is each of its returned expressions (`return None` arms left out) with the parameters spelled as
+    the arguments"""
+    import re as _re
+    e = rules.inline_locals(fn, node)
+    if isinstance(e, ast.Name):
+        ds = [y for y in ast.walk(fn) if isinstance(y, ast.Assign) and any(isinstance(t, ast.Name) and t.id == e.id for t in y.targets)]
+        if len(ds) == 1 and len(ds[0].targets) == 1:
+            e = rules.inline_locals(fn, ds[0].value)
+    if depth < 4 and isinstance(e, ast.Call) and isinstance(e.func, ast.Attribute) and unparse(e.func.value) == "self" and e.func.attr not in rules.ANCHOR_METHODS \
+            and not e.keywords and view.resolve(e.func.attr) is not None and not view.is_property(e.func.attr):
+        h = view.resolve(e.func.attr)[1]
+        ps = [a.arg for a in h.args.args][1:]
+        if len(ps) == len(e.args):
+            out = []
+            for r_ in [x for x in ast.walk(h) if isinstance(x, ast.Return)]:
+                if r_.value is None or (isinstance(r_.value, ast.Constant) and r_.value.value is None):
+                    continue
+                for t in _expand(view, h, r_.value, depth + 1):
+                    for p_, a_ in zip(ps, e.args):
+                        t = _re.sub(r"(?<![\w.])%s(?![\w])" % _re.escape(p_), lambda m_: unparse(a_).replace(" ", ""), t)
+                    out.append(t)
+            if out:
+                return out
+    return [unparse(e).replace(" ", "")]
+
+
 def subset_positions(ctx, P):
     """NodePopulationSubset reports the populations of the observed nodes in the order the user listed them: entry i of the state belongs to observed_nodes[i].
     That is so when the vector has one entry per listed node, every update addresses the entry at the node's position in the list, and the hashed state is
@@ -426,9 +454,9 @@ def subset_positions(ctx, P):
     inits = [x for x in rules.walk(P, view, fn) if isinstance(x, ast.Assign) and any(unparse(t) == "self.state" for t in x.targets)]
     for x in inits:
         n += 1
-        v = x.value
-        okk = (isinstance(v, ast.ListComp) and len(v.generators) == 1 and not v.generators[0].ifs and unparse(v.generators[0].iter) == "self.observed_nodes" and unparse(v.elt) == "0") \
-            or unparse(v).replace(" ", "") in ("[0]*len(self.observed_nodes)", "len(self.observed_nodes)*[0]")
+        import re as _re
+        texts = _expand(view, enclosing_def(x) or fn, x.value)
+        okk = bool(texts) and all(_re.fullmatch(r"\[0for\w+inself\.observed_nodes\]", t) or t in ("[0]*len(self.observed_nodes)", "len(self.observed_nodes)*[0]") for t in texts)
         ob.ok("initialise", unparse(x)[:80])
         if not okk:
             bad("initialise", unparse(x)[:80], "vector-shape", "the state must start as one zero per observed node, in the order of observed_nodes", x)
@@ -444,15 +472,11 @@ def subset_positions(ctx, P):
             if isinstance(tg, ast.Subscript) and unparse(tg.value) == "self.state":
                 n += 1
                 f_ = enclosing_def(x) or r[1]
-                sl = tg.slice
-                if isinstance(sl, ast.Name):        # `k = self.observed_nodes.index(...)` named once, then used as the position
-                    ds = [y for y in ast.walk(f_) if isinstance(y, ast.Assign) and any(isinstance(t, ast.Name) and t.id == sl.id for t in y.targets)]
-                    if len(ds) == 1 and len(ds[0].targets) == 1:
-                        sl = ds[0].value
-                idx = unparse(rules.inline_locals(f_, sl)).replace(" ", "")
-                nodep = [a.arg for a in r[1].args.args][1]
+                import re as _re
+                texts = _expand(view, f_, tg.slice)
+                idx = " / ".join(texts)
                 ob.ok("%s:%s" % (m, idx))
-                if idx not in ("self.observed_nodes.index(%s.id_number-1)" % nodep,):
+                if not texts or not all(_re.fullmatch(r"self\.observed_nodes\.index\(\(?\w+\.id_number-1\)?\)", t) for t in texts):
                     bad(m, unparse(x)[:80], "update-position", "the entry updated for a node must be the one at that node's position in observed_nodes (found index `%s`)" % idx, x)
     # (c) the reported state
     cls, fn = view.method("hash_state")
@@ -524,12 +548,47 @@ def probabilities(ctx, P):
     params = [a.arg for a in fn0.args.args]
     win = params[1] if len(params) > 1 else "observation_period"
     firsts = []
+    # what a name of the method (or of a closure nested in it) stands for: the window's end (`end = period[1]`, `start, end = period`) or the date of a history
+    # entry (`for event in self.history: date = event[0]`, `for date, state in self.history`)
+    binds = {}
+    for y in rules.walk(P, view, fn0):
+        # parameters of a newly extracted helper stand for the arguments it is called with
+        if isinstance(y, ast.Call) and isinstance(y.func, ast.Attribute) and unparse(y.func.value) == "self" and y.func.attr not in rules.ANCHOR_METHODS \
+                and view.resolve(y.func.attr) is not None and not y.keywords:
+            hp = [a.arg for a in view.resolve(y.func.attr)[1].args.args][1:]
+            if len(hp) == len(y.args):
+                for p_, a_ in zip(hp, y.args):
+                    if unparse(a_) != p_:
+                        binds.setdefault(p_, []).append(unparse(a_).replace(" ", ""))
+        if isinstance(y, ast.Assign) and len(y.targets) == 1:
+            t = y.targets[0]
+            if isinstance(t, ast.Name):
+                binds.setdefault(t.id, []).append(unparse(y.value).replace(" ", ""))
+            elif isinstance(t, (ast.Tuple, ast.List)) and all(isinstance(e_, ast.Name) for e_ in t.elts):
+                for i_, e_ in enumerate(t.elts):
+                    if isinstance(y.value, (ast.Tuple, ast.List)) and len(y.value.elts) == len(t.elts):
+                        binds.setdefault(e_.id, []).append(unparse(y.value.elts[i_]).replace(" ", ""))
+                    else:
+                        binds.setdefault(e_.id, []).append("%s[%d]" % (unparse(y.value).replace(" ", ""), i_))
+        if isinstance(y, (ast.For, ast.comprehension)) and "history" in unparse(y.iter):
+            t = y.target
+            if isinstance(t, ast.Name):
+                binds.setdefault(t.id, []).append("<entry>")
+            elif isinstance(t, (ast.Tuple, ast.List)) and t.elts and isinstance(t.elts[0], ast.Name):
+                binds.setdefault(t.elts[0].id, []).append("<entry>[0]")
+    def stands_for(txt, depth=0):
+        import re as _re
+        # (a date re-bound inside the loop -- prev_date = date -- has several bindings and stays as it is)
+        for _ in range(4):
+            new = _re.sub(r"(?<![\w.])([A-Za-z_]\w*)(?![\w(])", lambda m_: binds[m_.group(1)][0] if len(set(binds.get(m_.group(1), []))) == 1 else m_.group(1), txt)
+            if new == txt:
+                break
+            txt = new
+        return txt
     for x in rules.walk(P, view, fn0):
         if isinstance(x, ast.Call) and call_name(x) == "increment_time" and len(x.args) == 2:
-            from ..model import enclosing_def
-            firsts.append((unparse(rules.inline_locals(enclosing_def(x) or fn0, x.args[0])).replace(" ", ""), x))
-    loopvars = {unparse(lp.target) for lp in rules.walk(P, view, fn0) if isinstance(lp, ast.For) and "history" in unparse(lp.iter)}
-    entry_dates = {"%s[0]" % v for v in loopvars} | {v.strip("()").split(",")[0] for v in loopvars if "," in v}
+            firsts.append((stands_for(unparse(x.args[0]).replace(" ", "")), x))
+    entry_dates = {"<entry>[0]"}
     ob.ok("window-ends", "sojourn right ends: %s" % sorted(set(f for f, _ in firsts)))
     closing = [f for f, _ in firsts if f == "%s[1]" % win]
     if firsts and not closing:
